@@ -328,7 +328,9 @@ def hit_matrix(ctx, q, rule):
     s = ctx.S.get(q)
     w = [c for c in s.calls() if c.callee == "np.where" and len(c.args) == 1]
     need(len(w) == 1, rule, "%s: np.where(<hit matrix>) not found" % q)
-    return w[0].args[0]
+    from .common import factor_ite
+
+    return factor_ite(w[0].args[0])
 
 
 def _factors(t):
